@@ -7,6 +7,7 @@ import (
 
 	"github.com/dolthub/go-mysql-server/server"
 	"github.com/dolthub/go-mysql-server/sql"
+	"github.com/dolthub/go-mysql-server/sql/types"
 	"github.com/dolthub/go-mysql-server/sql/variables"
 )
 
@@ -84,4 +85,44 @@ func contains44(s, sub string) bool {
 		}
 	}
 	return false
+}
+
+// C44-K1: InitSystemVariables stores every value slot under sysVar.GetName() while every reader (GetGlobal, SetGlobal,
+// AssignValues, getSystemVar) and AddSystemVariables itself fold the name with strings.ToLower. AddSystemVariables
+// deliberately accepts a variable whose declared Name is not lower-case (it registers it under the folded name), so after
+// the next InitSystemVariables (the documented way to reset the globals, used by the engine tests between scripts) the
+// registry still knows the variable but its value slot lives under the unfolded spelling: GetGlobal dereferences the
+// missing slot.
+func TestC44InitSystemVariablesFoldsRegisteredNames(t *testing.T) {
+	variables.InitSystemVariables()
+	defer variables.InitSystemVariables()
+	sql.SystemVariables.AddSystemVariables([]sql.SystemVariable{&sql.MysqlSystemVariable{
+		Name:    "Verif_Custom_Limit",
+		Scope:   sql.GetMysqlScope(sql.SystemVariableScope_Both),
+		Dynamic: true,
+		Type:    types.NewSystemIntType("Verif_Custom_Limit", 0, 100, false),
+		Default: int64(7),
+	}})
+	_, v, ok := sql.SystemVariables.GetGlobal("verif_custom_limit")
+	if !ok || v != int64(7) {
+		t.Fatalf("after AddSystemVariables: GetGlobal(verif_custom_limit) = %v, %v; want 7, true", v, ok)
+	}
+
+	variables.InitSystemVariables() // reset the globals to their defaults
+
+	func() {
+		defer func() {
+			if r := recover(); r != nil {
+				t.Errorf("after InitSystemVariables: GetGlobal(verif_custom_limit) panics: %v", r)
+			}
+		}()
+		_, v, ok := sql.SystemVariables.GetGlobal("verif_custom_limit")
+		if !ok || v != int64(7) {
+			t.Errorf("after InitSystemVariables: GetGlobal(verif_custom_limit) = %v, %v; want the default 7, true", v, ok)
+		}
+	}()
+	// and a session created now does not see the variable under the name every reader uses
+	if _, has := sql.SystemVariables.NewSessionMap()["verif_custom_limit"]; !has {
+		t.Errorf("after InitSystemVariables: new sessions have no entry verif_custom_limit (keys are folded everywhere else)")
+	}
 }
